@@ -56,6 +56,12 @@ type spec struct {
 	Fields  []string // receiver fields used, turned into leading parameters: "name:type"
 	OutPtr  string   // name of a pointer out-parameter (its pointee is the result)
 	FloatSym bool    // float32 results are symbolic float expressions (Go.FExpr)
+	// the extended subset (ext.go)
+	Ext     bool         // translate with the extended translator
+	Structs []structSpec // struct types the function uses
+	Oracles []string     // function-typed parameters that are effectful callbacks
+	Consts  []constSpec  // package-level constants / error values the function mentions
+	Prims   []string     // library functions kept abstract as leading parameters (sortFunc)
 }
 
 var specs = []spec{
@@ -79,6 +85,9 @@ var specs = []spec{
 	{File: "distance/distance.go", Func: "hammingDistance", Module: "BitDist", FloatSym: true},
 	{File: "distance/distance.go", Func: "jaccardDistance", Module: "BitDist", FloatSym: true},
 	{File: "shard/vectorstore/binary.go", Func: "encode", Recv: "binaryQuantizer", Module: "BitDist", Fields: []string{"threshold:[]float32"}},
+	// extended subset
+	{File: "cluster/placement.go", Func: "distributePoints", Module: "Placement", Ext: true, Oracles: []string{"createShardFn"},
+		Structs: []structSpec{{File: "cluster/actions.go", Name: "shardInfo"}, {File: "models/point.go", Name: "Point"}}},
 }
 
 func fail(pos token.Position, format string, a ...any) {
@@ -1280,6 +1289,7 @@ func main() {
 	fset := token.NewFileSet()
 	files := map[string]*ast.File{}
 	mods := map[string][]genFunc{}
+	extMods := map[string]bool{}
 	var order []string
 	for _, sp := range specs {
 		f, ok := files[sp.File]
@@ -1295,7 +1305,27 @@ func main() {
 		if _, ok := mods[sp.Module]; !ok {
 			order = append(order, sp.Module)
 		}
-		for _, g := range translate(fset, f, sp) {
+		var gs []genFunc
+		if sp.Ext {
+			extMods[sp.Module] = true
+			gs = translateExt(fset, makeLoader(fset, *repo, files), sp)
+		} else {
+			gs = translate(fset, f, sp)
+		}
+		for _, g := range gs {
+			dup := false
+			for _, h := range mods[sp.Module] {
+				if h.name == g.name {
+					if !strings.HasPrefix(g.name, "structure ") || !strings.HasSuffix(h.text, g.text) {
+						fmt.Fprintf(os.Stderr, "go2lean: module %s: two different definitions of %s\n", sp.Module, g.name)
+						os.Exit(2)
+					}
+					dup = true
+				}
+			}
+			if dup {
+				continue
+			}
 			g.text = fmt.Sprintf("/- from %s : %s -/\n", sp.File, sp.Func) + g.text
 			mods[sp.Module] = append(mods[sp.Module], g)
 		}
@@ -1306,7 +1336,11 @@ func main() {
 	for _, m := range order {
 		var b strings.Builder
 		b.WriteString("-- GENERATED by tools/go2lean from the working tree of the repository. DO NOT EDIT.\n")
-		b.WriteString("import SemaModel.Base.GoRt\nnamespace Sema.Gen." + m + "\nopen Sema\n\n")
+		b.WriteString("import SemaModel.Base.GoRt\n")
+		if extMods[m] {
+			b.WriteString("set_option linter.unusedVariables false\n")
+		}
+		b.WriteString("namespace Sema.Gen." + m + "\nopen Sema\n\n")
 		for _, g := range mods[m] {
 			b.WriteString(g.text + "\n")
 		}
